@@ -8,7 +8,8 @@ TOL = 1e-9
 # ---------------------------------------------------------------------------------- data and models
 
 def make_frame(case):
-    """a small materialized dataset (>= 2 columns per used stype, optional missing cells), in float64"""
+    """a small materialized dataset (>= 2 columns per used stype, optional missing cells), in float64; the scale
+    family makes it long (rows), wide (columns) or gives one categorical column many categories (`bigcat`)"""
     nngen.setup()
     import numpy as np
     import pandas as pd
@@ -18,10 +19,12 @@ def make_frame(case):
     n = case['rows']
     cols, c2s = {}, {}
     for i in range(case['num']):
-        cols[f'n{i}'] = r.randn(n) * (1 + i) + i
+        cols[f'n{i}'] = r.randn(n) * (1 + i % 7) + i % 11
         c2s[f'n{i}'] = stype.numerical
     for i in range(case['cat']):
         k = 2 + i % 2
+        if i == 0 and case.get('bigcat'):
+            k = min(case['bigcat'], n)
         v = r.randint(0, k, n)
         v[:k] = range(k)                      # every category occurs
         cols[f'c{i}'] = np.array([f'v{j}' for j in v], dtype=object)
@@ -34,53 +37,155 @@ def make_frame(case):
             if r.rand() < 0.6:
                 # (rows 0-2 keep one occurrence of every category, so no column degenerates to one value)
                 df.loc[int(r.randint(3, n)), name] = None if name.startswith('c') else np.nan
+                if n > 16:                    # long frames: missing cells all over the column, not just one
+                    lo = min(case.get('bigcat', 3), n - 1) if name == 'c0' else 3
+                    for q in r.randint(lo, n, max(1, n // 9)):
+                        df.loc[int(q), name] = None if name.startswith('c') else np.nan
     df = df.astype({c: object for c in cols if c.startswith('c')})
     ds = Dataset(df, c2s, target_col='y').materialize()
     tf = ds.tensor_frame
-    fd = {k: (v.double() if v.is_floating_point() else v.clone()) for k, v in tf.feat_dict.items()}
+    import torch
+    bd = case.get('block_dtype') or {}
+    # family 3: float32 numbers (as the mapper emits them) under float64 parameters / int32 category indices
+    fd = {k: ((v if bd.get('num') == 'f32' else v.double()) if v.is_floating_point()
+              else (v.to(torch.int32) if bd.get('cat') == 'i32' else v.clone())) for k, v in tf.feat_dict.items()}
     return ds, TensorFrame(fd, tf.col_names_dict, tf.y.double())
 
 
-def make_model(case, ds, tf):
+def encoder_dict(case, which=0):
+    """family 6: encoder options off the default (None = the model's own default encoders).  Fresh encoder
+    objects on every call (an encoder object belongs to one model)."""
+    opt = case.get('enc')
+    if not opt:
+        return None
+    from torch_frame import NAStrategy, stype
+    from torch_frame.nn import encoder as E
+    k = case['model']
+    num = {'na': lambda: E.LinearEncoder(na_strategy=NAStrategy.MEAN),
+           'periodic': lambda: E.LinearPeriodicEncoder(n_bins=3, na_strategy=NAStrategy.ZEROS),
+           'extra-keys': lambda: E.LinearEncoder()}[opt]
+    if k == 'excel':
+        num = lambda: E.ExcelFormerEncoder(case['channels'], na_strategy=NAStrategy.ZEROS if opt == 'na' else NAStrategy.MEAN)  # noqa
+    if k == 'tabnet':
+        num = lambda: E.StackEncoder(na_strategy=NAStrategy.MEAN if opt == 'na' else None)  # noqa
+    cat = (lambda: E.EmbeddingEncoder(na_strategy=NAStrategy.MOST_FREQUENT)) if opt == 'na' else (lambda: E.EmbeddingEncoder())
+    d = {stype.numerical: num()} if k == 'excel' else {stype.categorical: cat(), stype.numerical: num()}
+    if opt == 'extra-keys':
+        # keys for stypes the dataset does not have (admissible pairings), listed first
+        d = {stype.timestamp: E.TimestampEncoder(), stype.embedding: E.LinearEmbeddingEncoder(),
+             stype.multicategorical: E.MultiCategoricalEmbeddingEncoder(), **d}
+    return d
+
+
+def construct(case, ds, tf, drop=True):
+    """the zoo model as its constructor leaves it (float64); drop=False: the same configuration with every
+    dropout rate set to zero"""
     torch = nngen.setup()
     from torch_frame.nn import MLP, ExcelFormer, FTTransformer, ResNet, TabNet, TabTransformer, Trompt
     kw = dict(col_stats=ds.col_stats, col_names_dict=tf.col_names_dict)
     k, ch, out, L = case['model'], case['channels'], case['out'], case['layers']
-    torch.manual_seed(case['seed'])
+    d = (case.get('drop') or {}) if drop else {kk: 0.0 for kk in (case.get('drop') or {})}
+    if case.get('enc') and k != 'tabt':
+        if k == 'trompt':
+            kw['stype_encoder_dicts'] = [encoder_dict(case, i) for i in range(L)]
+        else:
+            kw['stype_encoder_dict'] = encoder_dict(case)
     if k == 'mlp':
-        m = MLP(ch, out, L, normalization=case['norm'], **kw)
+        m = MLP(ch, out, L, normalization=case['norm'], **({'dropout_prob': d['p']} if 'p' in d else {}), **kw)
     elif k == 'resnet':
-        m = ResNet(ch, out, L, normalization=case['norm'], **kw)
+        m = ResNet(ch, out, L, normalization=case['norm'], **({'dropout_prob': d['p']} if 'p' in d else {}), **kw)
     elif k == 'ft':
         m = FTTransformer(ch, out, L, **kw)
     elif k == 'tabt':
-        m = TabTransformer(ch, out, L, case['heads'], case['pad'], 0.0, 0.0, **kw)
+        m = TabTransformer(ch, out, L, case['heads'], case['pad'], d.get('attn', 0.0), d.get('ffn', 0.0), **kw)
     elif k == 'trompt':
         m = Trompt(ch, out, case['prompts'], L, **kw)
     elif k == 'tabnet':
         m = TabNet(out, L, case['split_feat'], case['split_attn'], case['gamma'], cat_emb_channels=case['cat_emb'],
                    num_shared_glu_layers=case['shared'], num_dependent_glu_layers=case['dependent'], **kw)
     else:
-        m = ExcelFormer(ch, out, case['num'], L, case['heads'], **kw)
-    m = m.double()
-    nngen.randomize_backbone(m, case['seed'] + 11)
-    # a few optimizer steps so that the BatchNorm running statistics are those of training, not the initial ones
-    if case['steps']:
-        # (training on the missing cells themselves poisons the default encoders' weights with NaN - finding
-        #  'encoder/nan-weights-after-training-on-missing', probed separately in extra_checks - so the training
-        #  steps, and only they, see the missing cells filled)
-        from torch_frame import TensorFrame
-        tf = TensorFrame({k: (torch.nan_to_num(v, nan=0.0) if v.is_floating_point() else v.clamp(min=0))
-                          for k, v in tf.feat_dict.items()}, tf.col_names_dict, tf.y)
-        m.train()
-        opt = torch.optim.SGD(m.parameters(), lr=0.02)
-        g = torch.Generator().manual_seed(case['seed'] + 5)
-        for _ in range(case['steps']):
-            opt.zero_grad()
-            o = m(tf)
-            tgt = torch.randn(o.shape, generator=g, dtype=torch.float64)
-            ((o - tgt) ** 2).mean().backward()
-            opt.step()
+        m = ExcelFormer(ch, out, case['num'], L, case['heads'], diam_dropout=d.get('diam', 0.0),
+                        aium_dropout=d.get('aium', 0.0), residual_dropout=d.get('residual', 0.0),
+                        **({'mixup': case['mixup']} if case.get('mixup') else {}), **kw)
+    return m.double()
+
+
+def select(tf, idx):
+    import torch
+    return tf[idx] if idx else tf[torch.tensor([], dtype=torch.long)]
+
+
+def train_steps(case, m, tf, steps, gseed):
+    """a few optimizer steps so that the BatchNorm running statistics are those of training, not the initial ones"""
+    torch = nngen.setup()
+    # (training on the missing cells themselves poisons the default encoders' weights with NaN - finding
+    #  'encoder/nan-weights-after-training-on-missing', probed separately in extra_checks - so the training
+    #  steps, and only they, see the missing cells filled)
+    from torch_frame import TensorFrame
+    tf = TensorFrame({k: (torch.nan_to_num(v, nan=0.0) if v.is_floating_point() else v.clamp(min=0))
+                      for k, v in tf.feat_dict.items()}, tf.col_names_dict, tf.y)
+    if len(tf) > 64:
+        tf = tf[:64]                       # (the running statistics of 64 rows are as non-trivial as those of 4 000)
+    m.train()
+    opt = torch.optim.SGD(m.parameters(), lr=0.02)
+    g = torch.Generator().manual_seed(gseed)
+    for _ in range(steps):
+        opt.zero_grad()
+        o = m(tf)
+        tgt = torch.randn(o.shape, generator=g, dtype=torch.float64)
+        ((o - tgt) ** 2).mean().backward()
+        torch.nn.utils.clip_grad_norm_(m.parameters(), 5.0)     # (dropout 0.9 in training mode scales gradients up)
+        opt.step()
+
+
+def history_call(case, m, tf, h):
+    """one earlier call on the same model object (family 5); evaluation mode unless stated"""
+    torch = nngen.setup()
+    with torch.no_grad():
+        if h == 'batch':                   # the very batch (hence the batch size) that is measured later
+            m(select(tf, case['idx']))
+        elif h == 'full':
+            m(tf)
+        elif h == 'one':
+            m(tf[[case['row']]])
+        elif h == 'empty':
+            m(select(tf, []))
+        elif h == 'train_fwd':             # a training-mode call without an optimizer step
+            if len(tf) > 1:
+                m.train()
+                m(tf[:64])
+                m.eval()
+        elif h == 'train_eval':
+            m.train()
+            m.eval()
+        elif h == 'reset':                 # reset_parameters(), then a generic parameter draw again
+            torch.manual_seed(case['seed'] + 3)
+            m.reset_parameters()
+            nngen.randomize_backbone(m, case['seed'] + 13)
+        else:
+            raise ValueError(h)
+
+
+def make_model(case, ds, tf, pseed=None, steps=None):
+    """the model in the parameter state the case describes:
+    construct -> generic random backbone parameters -> [evaluation-mode calls `pre`] -> 0..k SGD steps in training
+    mode -> eval() -> [calls `post` on the same object].  `pseed` re-draws every parameter (same configuration)."""
+    torch = nngen.setup()
+    seed = case['seed'] if pseed is None else pseed
+    torch.manual_seed(seed)
+    m = construct(case, ds, tf)
+    nngen.randomize_backbone(m, seed + 11)
+    m.eval()
+    if pseed is None:
+        for h in case.get('pre', []):
+            history_call(case, m, tf, h)
+    steps = case['steps'] if steps is None else steps
+    if steps:
+        train_steps(case, m, tf, steps, seed + 5)
+    m.eval()
+    if pseed is None:
+        for h in case.get('post', []):
+            history_call(case, m, tf, h)
     return m.eval()
 
 
@@ -196,7 +301,7 @@ def perturbed(tf, ds, col, rows, seed, scale=1.0):
     if st == stype.numerical:
         noise = nngen.randn((len(rows),), seed, scale=scale)
         old = torch.nan_to_num(fd[st][rows_t, j], nan=0.0)
-        fd[st][rows_t, j] = old + noise + 0.5
+        fd[st][rows_t, j] = (old + noise + 0.5).to(fd[st].dtype)
     else:
         name = tf.col_names_dict[st][j]
         k = len(ds.col_stats[name][StatType.COUNT][0])
@@ -268,7 +373,20 @@ class C14(core.Check):
             'training mode (non-trivial running statistics), then float64 eval; a batch composition tf[idx] '
             '(permutation, duplicates, subset, single row, empty, all rows; one 520-row TabNet batch per run, more in '
             'thorough); the Lean model receives the output of the real encoder(s) for that batch (forward hook) and '
-            'the exported state_dict; non-trivial = non-empty batch; distinct = distinct case hash')
+            'the exported state_dict; non-trivial = non-empty batch; distinct = distinct case hash. '
+            'Hardening families (labels scale:* / cfg:* / hist:*): ~10% of the cases carry one size from the stress ladder '
+            'extended by the zoo\'s chunking thresholds (513, 2 049 at every level; 4 097 / 16 385 at levels 1 / 2): a long '
+            'batch drawn with repetitions from the frame, a long frame with distinct rows (permuted / subset / multiset / '
+            'whole), > 256 columns, > 256 categories in one column, channels up to 64 / 128, 3-6 layers; dropout rates > 0 '
+            '(MLP, ResNet, TabTransformer, ExcelFormer), ExcelFormer with mixup configured, non-default encoders (NA '
+            'strategies, periodic / stack / ExcelFormer encoders) and stype_encoder_dict keys for stypes without columns; '
+            'histories on the one model object: evaluation-mode calls (the measured batch, the whole frame, one row, the '
+            'empty batch) BEFORE the training steps, and calls / training-mode forward / reset_parameters after them. '
+            'Direct oracles added for them: the batch scored in two parts and single positions (incl. 511/512/2047/2048) '
+            'scored alone; a freshly constructed model with the same state_dict predicts exactly the same (no state outside '
+            'the state_dict); the same model with all dropout rates 0 predicts exactly the same; the first result is '
+            're-computed after all other calls. Cases whose encoder output exceeds 400 000 numbers or whose state_dict exceeds '
+            '300 000 parameters (TabTransformer with > 100 columns) are judged by these oracles only (oracle_only_cases)')
     partial_notes = (
         '"every column can influence the prediction" is an existence claim about generic parameters: the structural '
         'half is encoder_drops_no_column, the numeric half is checked on the real models (generic perturbation of '
@@ -277,6 +395,9 @@ class C14(core.Check):
         'starts at the encoder output captured from the real forward pass',
         'determinism and finiteness are checked on the real models; float round-off and overflow are outside the model',
         'train-mode BatchNorm appears only as the counter-example bn_train_not_rowwise',
+        '"can influence" is judged over parameter draws: if a column has no influence under the drawn (trained) state, the '
+        'same configuration is re-drawn 6 times (alternately untrained / trained) at perturbation scales 1, 4, 16; the '
+        'alarm needs all of them to ignore the column (evidence: columns_ignored_by_one_parameter_state)',
     )
     assumptions = (
         'PyTorch primitives (Linear, LayerNorm, BatchNorm1d eval, GroupNorm, GLU, SELU, PReLU, softmax, '
@@ -287,6 +408,10 @@ class C14(core.Check):
     )
 
     # ------------------------------------------------------------------ generation
+    SCALE_SHARE = {0: 0.09, 1: 0.08, 2: 0.04}
+    MODEL_FLOATS = 400_000          # encoder-output numbers above which a case is judged by the oracle only
+    MODEL_PARAMS = 300_000          # exported parameters above which a case is judged by the oracle only
+
     def generate(self, rng, n, tier):
         big_left = 1 if tier == 'quick' else 12
         for i in range(n):
@@ -326,14 +451,124 @@ class C14(core.Check):
                             shared=rng.choice([0, 1, 2]), dependent=rng.choice([0, 1, 2]))
                 if case['shared'] == 0 and case['dependent'] == 0:
                     case['dependent'] = 1
-            ikind, idx = nngen.gen_idx(rng, rows)
-            if k == 'tabnet' and big_left > 0:
-                big_left -= 1
-                ikind, idx = 'big520', [rng.randrange(rows) for _ in range(520)]
-            case['idx_kind'], case['idx'] = ikind, idx
+            if rng.random() < self.SCALE_SHARE.get(self.level, 0.05):
+                self.gen_scale(rng, case)
+            rows = case['rows']
+            if 'idx' not in case:
+                ikind, idx = nngen.gen_idx(rng, rows)
+                if k == 'tabnet' and big_left > 0 and 'scale' not in case:
+                    big_left -= 1
+                    ikind, idx = 'big520', [rng.randrange(rows) for _ in range(520)]
+                case['idx_kind'], case['idx'] = ikind, idx
             case['row'] = rng.randrange(rows)
             case['col'] = rng.randrange(case['num'] + case['cat'])
+            self.gen_config(rng, case)
             yield case
+
+    def gen_scale(self, rng, case):
+        """family 1: one size far above the small default - batch (> 512, > 2 048 rows), frame length, number of
+        columns (> 256), categories of one column (> 256), channels, layers >= 3"""
+        from harness import stress
+        k, lvl = case['model'], self.level
+
+        def size(cap, ladder=None):
+            xs = [x for x in (ladder or stress.ladder(lvl)) if x <= cap]
+            if rng.random() < 0.5:
+                return max(xs) + rng.choice([0, 0, 1, 2])
+            return rng.choice(xs) + rng.choice([0, 0, 1, 2])
+        dims = ['batch', 'batch', 'rows', 'rows', 'cols', 'cats', 'channels', 'layers']
+        if k == 'excel':
+            dims = ['batch', 'batch', 'rows', 'rows', 'cols', 'cols', 'channels', 'layers']
+        if k == 'tabt' and case['cat'] == 0:
+            dims = [d for d in dims if d != 'cats']
+        dim = rng.choice(dims)
+        case['scale'] = dim
+        # the chunking thresholds of the zoo (ghost batches of 512 rows, blocks of 2 048 rows) are part of every level
+        long_ladder = stress.LADDER_SMALL + [513, 2049] + ([1025, 4097] if lvl >= 1 else []) + ([16385] if lvl >= 2 else [])
+        if dim in ('batch', 'rows') and k not in ('tabnet',) and rng.random() < 0.7:
+            # scale is combined with depth: per-row state handed from layer to layer must stay aligned in long batches
+            case['layers'] = rng.choice([2, 2, 3])
+        if dim == 'batch':
+            # a long batch drawn (with repetitions, shuffled) from the few rows of the frame
+            b = size(70000, long_ladder)
+            case['idx_kind'], case['idx'] = f'big{self.bucket(b)}', [rng.randrange(case['rows']) for _ in range(b)]
+        elif dim == 'rows':
+            # a long frame with distinct rows; the batch is a permutation / a large multiset / everything
+            r = size(70000, long_ladder)
+            case['rows'] = r
+            kind = rng.choice(['perm', 'all', 'dups', 'subset'])
+            if kind == 'perm':
+                idx = list(range(r))
+                rng.shuffle(idx)
+            elif kind == 'all':
+                idx = list(range(r))
+            elif kind == 'dups':
+                idx = [rng.randrange(r) for _ in range(r + rng.randint(0, 9))]
+            else:
+                idx = sorted(rng.sample(range(r), rng.randint(r // 2, r)))
+            case['idx_kind'], case['idx'] = f'long-{kind}', idx
+            case['steps'] = min(case['steps'], 2)
+        elif dim == 'cols':
+            c = size(260 if lvl == 0 else 520)
+            if k == 'excel':
+                case['num'] = c
+            elif k == 'tabt':
+                case['cat' if case['cat'] else 'num'] = c
+            else:
+                case['num'], case['cat'] = (c, rng.randint(1, 2)) if rng.random() < 0.5 else (rng.randint(1, 2), c)
+            case['steps'] = min(case['steps'], 1)
+            case['channels'] = {'ft': 8, 'excel': case.get('heads', 1) * 3, 'tabt': case['channels']}.get(k, 4)
+        elif dim == 'cats':
+            c = size(260 if lvl == 0 else 1030)
+            case['bigcat'] = c
+            case['rows'] = c + rng.randint(3, 12)
+        elif dim == 'channels':
+            if k == 'ft':
+                case['channels'] = rng.choice([16, 32, 64])
+            elif k in ('excel', 'tabt'):
+                case['channels'] = case['heads'] * size(70)
+            elif k != 'tabnet':
+                case['channels'] = size(70)
+            else:
+                case['split_feat'], case['split_attn'] = size(40), size(40)
+        elif dim == 'layers':
+            case['layers'] = rng.choice([3, 4] if lvl == 0 else [3, 4, 6])
+
+    def gen_config(self, rng, case):
+        """families 5 and 6: dropout rates > 0 (inactive in evaluation mode), mixup configured, encoder options,
+        stype keys without columns; earlier calls on the same model object before / after the training steps"""
+        k, r = case['model'], rng.random
+        if k in ('mlp', 'resnet') and r() < 0.5:
+            case['drop'] = {'p': rng.choice([0.0, 0.2, 0.5, 0.9])}          # (the class default is 0.2)
+        if k == 'tabt' and r() < 0.6:
+            case['drop'] = {'attn': rng.choice([0.0, 0.3, 0.5, 0.9]), 'ffn': rng.choice([0.0, 0.3, 0.9])}
+        if k == 'excel' and r() < 0.6:
+            case['drop'] = {'diam': rng.choice([0.0, 0.3, 0.9]), 'aium': rng.choice([0.0, 0.3, 0.9]),
+                            'residual': rng.choice([0.0, 0.3, 0.9])}
+        if k == 'excel' and r() < 0.3:
+            case['mixup'] = rng.choice(['feature', 'hidden'])
+        if k != 'tabt' and r() < 0.25:
+            case['enc'] = rng.choice(['na', 'periodic', 'extra-keys'])
+        if r() < 0.12:
+            case['block_dtype'] = {k_: v for k_, v in (('num', 'f32'), ('cat', 'i32')) if r() < 0.7}
+        if r() < 0.35:
+            calls = ['batch', 'batch', 'full', 'one', 'empty', 'train_eval']
+            case['pre'] = [rng.choice(calls) for _ in range(rng.choice([1, 2, 3]))]
+            if case['steps'] == 0 and r() < 0.5:
+                case['steps'] = rng.choice([1, 2])
+        if r() < 0.25:
+            calls = ['batch', 'full', 'one', 'empty', 'train_fwd', 'train_fwd', 'train_eval', 'reset']
+            case['post'] = [rng.choice(calls) for _ in range(rng.choice([1, 1, 2]))]
+        if case.get('scale') in ('rows', 'batch') and len(case['idx']) > 3000:
+            case['pre'] = [h for h in case.get('pre', []) if h != 'full'][:1]
+            case['post'] = [h for h in case.get('post', []) if h != 'full'][:1]
+
+    @staticmethod
+    def bucket(v):
+        for t in (65537, 16385, 4097, 2049, 1025, 513, 257, 129, 65, 33, 17):
+            if v >= t:
+                return f'{t}+'
+        return 'small'
 
     # ------------------------------------------------------------------ real code
     def _run(self, case):
@@ -342,8 +577,13 @@ class C14(core.Check):
         m = make_model(case, ds, tf)
         st = {'ds': ds, 'tf': tf, 'm': m}
         try:
-            out, enc = run_model(case, m, tf[case['idx']] if case['idx'] else tf[torch.tensor([], dtype=torch.long)])
+            batch = select(tf, case['idx'])
+            snap = {k_: v.clone() for k_, v in batch.feat_dict.items()}
+            out, enc = run_model(case, m, batch)
             st['out'], st['enc'] = out, enc
+            st['out_snap'] = out.clone()
+            st['input_modified'] = any(not torch.equal(torch.nan_to_num(v.double()), torch.nan_to_num(snap[k_].double()))
+                                       for k_, v in batch.feat_dict.items())
         except Exception as e:  # noqa
             st['out'], st['exc'] = None, f'{type(e).__name__}: {e}'
         self._stash = (core.stable_hash(case), st)
@@ -364,11 +604,31 @@ class C14(core.Check):
         return st['out'].tolist()
 
     # ------------------------------------------------------------------ model
+    def oracle_only(self, case, st):
+        """inputs whose encoder output exceeds MODEL_FLOATS numbers are judged by the metamorphic oracle on the real
+        model only (the Lean model would need minutes for them)"""
+        n = sum(e.numel() for e in st.get('enc', []))
+        attn = len(case['idx']) * case['num'] ** 2 if case['model'] == 'excel' else 0
+        # (TabTransformer's decoder is quadratic in the number of columns: 2 M parameters at 257 columns)
+        params = sum(p.numel() for p in st['m'].parameters()) if 'm' in st else 0
+        return n > self.MODEL_FLOATS or attn > 3_000_000 or params > self.MODEL_PARAMS
+
+    # core.Check.replay prints the model outcome with json.dumps, which cannot render core.SKIP_MODEL: during a replay
+    # an oracle-only case reports a printable marker instead
+    _replaying = False
+
+    def replay(self, path):
+        self._replaying = True
+        return super().replay(path)
+
+    def skip_model(self):
+        return 'oracle-only case: not shipped to the Lean model' if self._replaying else core.SKIP_MODEL
+
     def model_requests(self, case):
         if 'probe' in case:
             return []
         st = self._state(case)
-        if st['out'] is None:
+        if st['out'] is None or self.oracle_only(case, st):
             return []
         k = case['model']
         req = {'cmd': k, 'p': export(case, st['m'])}
@@ -388,11 +648,14 @@ class C14(core.Check):
         if 'probe' in case:
             return 'probe-not-modelled'
         if not replies:
+            st = self._state(case)
+            if st['out'] is not None and self.oracle_only(case, st):
+                return self.skip_model()
             return 'raises'
         return nngen.dec(replies[0])
 
     def equal(self, a, b):
-        if b == 'probe-not-modelled':
+        if b == 'probe-not-modelled' or (isinstance(b, str) and b.startswith('oracle-only')):
             return True
         return nngen.tol_equal(a, b)
 
@@ -424,17 +687,56 @@ class C14(core.Check):
             return V('shape', want, tuple(out.shape))
         if not bool(torch.isfinite(out).all()):
             return V('non-finite prediction')
+        if st.get('input_modified'):
+            return V('input-modified', 'the TensorFrame handed to the model is unchanged by the call', 'changed in place')
         idx = torch.tensor(case['idx'], dtype=torch.long)
         with torch.no_grad():
             again = m(tf[idx])
             if not torch.equal(again, out):
-                return V('non-deterministic')
+                return V('non-deterministic', 'two evaluation-mode calls on the same batch agree exactly',
+                         f'max deviation {nngen.max_dev(again, out):.3e}')
             full = m(tf)
         if not bool(torch.isfinite(full).all()):
             return V('non-finite prediction')
         dev = nngen.max_dev(out, full[idx])
         if dev > TOL:
             return V('not-row-independent', 'model(tf[idx]) == model(tf)[idx]', f'max deviation {dev:.3e}')
+        # every row scored alone / in another grouping of the same rows (a sample of them for long batches)
+        if B > 0:
+            probe = sorted(set([0, B - 1, B // 2] + ([511, 512, 2047, 2048] if B > 2048 else [511, 512] if B > 512 else [])))
+            probe = [i for i in probe if i < B]
+            with torch.no_grad():
+                for i in probe:
+                    dev = nngen.max_dev(m(tf[[case['idx'][i]]]), out[i:i + 1])
+                    if dev > TOL:
+                        return V('not-row-independent', f'position {i} of the batch scored alone gives the same '
+                                 'prediction', f'max deviation {dev:.3e}')
+                if B > 3:
+                    cut = case['seed'] % (B - 1) + 1
+                    parts = torch.cat([m(tf[idx[:cut]]), m(tf[idx[cut:]])], dim=0)
+                    dev = nngen.max_dev(parts, out)
+                    if dev > TOL:
+                        return V('not-row-independent', f'the batch scored in two parts (split at {cut}) gives the same '
+                                 'predictions', f'max deviation {dev:.3e}')
+        # the prediction is a function of the parameters and the row: an identically configured fresh model with the
+        # same state_dict predicts the same, whatever was called on this object before
+        twin = construct(case, ds, tf)
+        twin.load_state_dict(m.state_dict())
+        with torch.no_grad():
+            tw = twin.eval()(tf[idx])
+        dev = nngen.max_dev(tw, out)
+        if dev > 0.0:
+            return V('history-dependent', f'after pre={case.get("pre")}, {case["steps"]} training steps, post={case.get("post")} '
+                     'the model predicts what a fresh model with the same state_dict predicts', f'max deviation {dev:.3e}')
+        if case.get('drop') and any(v > 0 for v in case['drop'].values()):
+            plain = construct(case, ds, tf, drop=False)
+            plain.load_state_dict(m.state_dict())
+            with torch.no_grad():
+                pl = plain.eval()(tf[idx])
+            dev = nngen.max_dev(pl, out)
+            if dev > 0.0:
+                return V('dropout-active-in-eval', f'dropout rates {case["drop"]} do not change evaluation-mode predictions',
+                         f'max deviation {dev:.3e} from the same model with rate 0')
         # changing one row changes only that row's prediction
         r = case['row']
         with torch.no_grad():
@@ -444,26 +746,42 @@ class C14(core.Check):
         if dev > TOL:
             return V('row-perturbation-leaks', f'only row {r} changes', f'other rows deviate by {dev:.3e}')
         # every column can influence the prediction
-        changed = False
+        v = self.oracle_influence(case, st, full, V)
+        if v is not None:
+            return v
+        with torch.no_grad():
+            if not torch.equal(m(tf[idx]), st['out_snap']) or not torch.equal(out, st['out_snap']):
+                return V('non-deterministic', 'the prediction of the batch is the same after the other calls of this check',
+                         'changed')
+        return None
+
+    REDRAWS = 6
+
+    def oracle_influence(self, case, st, full, V):
+        """"every feature column can influence the prediction" is an existence claim over parameters: a particular
+        (trained) state may ignore one column (sparsemax zeros, a saturated softmax, dead ReLUs).  The alarm is
+        raised only if the column has no influence under the drawn state AND under REDRAWS fresh generic parameter
+        draws of the same configuration (alternately untrained / after the same training steps), at several
+        perturbation scales.  A column the code drops fails under every draw."""
+        import torch
+        m, tf, ds = st['m'], st['tf'], st['ds']
+        rows = list(range(len(tf)))
         for t in range(3):
             with torch.no_grad():
-                o3 = m(perturbed(tf, ds, case['col'], list(range(len(tf))), case['seed'] + 17 + t, scale=1.0 + t))
+                o3 = m(perturbed(tf, ds, case['col'], rows, case['seed'] + 17 + t, scale=1.0 + t))
             if nngen.max_dev(o3, full) > 0.0:
-                changed = True
-                break
-        if not changed:
-            # an existence claim about *generic* parameters: if the drawn parameter state ignores its whole
-            # input (all ReLU units dead), no column can matter and the case says nothing about the code
-            tfa = tf
-            for c in range(len(columns_of(tf))):
-                tfa = perturbed(tfa, ds, c, list(range(len(tf))), case['seed'] + 31 + c, scale=3.0)
-            with torch.no_grad():
-                dead = nngen.max_dev(m(tfa), full) == 0.0
-            if dead:
-                self._dead = getattr(self, '_dead', 0) + 1
                 return None
-            return V('column-without-influence', f'perturbing column {case["col"]} changes some prediction', 'no change')
-        return None
+        for t in range(self.REDRAWS):
+            m2 = make_model(case, ds, tf, pseed=case['seed'] + 7919 * (t + 1), steps=case['steps'] if t % 2 else 0)
+            with torch.no_grad():
+                base = m2(tf)
+                for scale in (1.0, 4.0, 16.0):
+                    o3 = m2(perturbed(tf, ds, case['col'], rows, case['seed'] + 41 + t, scale=scale))
+                    if nngen.max_dev(o3, base) > 0.0:
+                        self._ignored = getattr(self, '_ignored', 0) + 1
+                        return None
+        return V('column-without-influence', f'perturbing column {case["col"]} changes some prediction under the drawn '
+                 f'parameters or under one of {self.REDRAWS} fresh generic parameter draws', 'no change under any draw')
 
     def extra_checks(self, rng, tier, report):
         """deterministic reproduction of the recorded finding (training on missing cells poisons the default
@@ -477,7 +795,7 @@ class C14(core.Check):
             if v is not None:
                 report['violations'].append(v)
         report['extra']['nan_training_probe'] = seen
-        report['extra']['input_insensitive_parameter_states_skipped'] = getattr(self, '_dead', 0)
+        report['extra']['columns_ignored_by_one_parameter_state'] = getattr(self, '_ignored', 0)
 
     def nontrivial_key(self, case, r):
         if 'probe' in case:
@@ -490,14 +808,40 @@ class C14(core.Check):
         if 'probe' in case:
             return ['probe']
         labs = [f"model:{case['model']}", f"compose:{case['idx_kind']}", f"batch:{min(len(case['idx']), 11)}",
-                f"steps:{case['steps']}", f"missing:{case['missing']}", f"layers:{case['layers']}",
+                f"steps:{case['steps']}", f"missing:{case['missing']}", f"layers:{min(case['layers'], 3)}",
                 'outcome:raises' if r == 'raises' else 'outcome:ok']
         if 'norm' in case:
             labs.append(f"norm:{case['model']}/{case['norm']}")
         if case['model'] == 'tabt':
             labs.append(f"tabt-branches:cat{min(case['cat'], 1)}num{min(case['num'], 1)}")
         if case['model'] == 'tabnet':
-            labs.append(f"tabnet-glu:shared{case['shared']}dep{case['dependent']}")
+            labs.append(f"tabnet-glu:shared{min(case['shared'], 2)}dep{min(case['dependent'], 2)}")
+        if 'scale' in case:
+            dim = case['scale']
+            v = {'batch': len(case['idx']), 'rows': case['rows'], 'cols': case['num'] + case['cat'],
+                 'cats': case.get('bigcat', 0), 'channels': max(case['channels'], case.get('split_feat', 0)),
+                 'layers': case['layers']}[dim]
+            labs.append(f"scale:{dim}:{v if dim == 'layers' else self.bucket(v)}")
+            if dim in ('batch', 'rows'):
+                labs.append(f"scale:{dim}:{case['model']}:{self.bucket(len(case['idx']))}")
+        if case.get('drop') and any(v > 0 for v in case['drop'].values()):
+            labs.append(f"cfg:dropout>0:{case['model']}")
+        if case.get('mixup'):
+            labs.append('cfg:mixup-configured')
+        if case.get('enc'):
+            labs.append(f"cfg:encoders:{case['enc']}")
+        for k_, v in (case.get('block_dtype') or {}).items():
+            if case[k_]:
+                labs.append(f'dtype:{k_}:{v}')
+        for h in case.get('pre', []):
+            labs.append(f'hist:before-training:{h}')
+        for h in case.get('post', []):
+            labs.append(f'hist:after-training:{h}')
+        if case.get('pre') and case['steps'] and 'batch' in case['pre']:
+            labs.append('hist:eval(batch)->train-steps->eval(batch)')
+        st = self._state(case)
+        if st.get('out') is not None and self.oracle_only(case, st):
+            labs.append('oracle-only')
         return labs
 
 
